@@ -51,14 +51,34 @@ def allowed_py_modules(pkg: pg.Pkg, g: pg.GDecl, pub: pg.Publicity) -> set:
         for r in res:
             if r.form == "modalias" and r.module == g.module.qname:
                 out.add(".".join(p))
-            if r.form in ("name", "star") and r.module == g.module.qname:
+            if r.form == "star" and r.module == g.module.qname:
                 out.add(".".join(p))
+            if r.form == "name" and r.module == g.module.qname and r.name == g.path[0]:
+                out.add(".".join(p))
+    return out
+
+
+def allowed_places(pkg: pg.Pkg, g: pg.GDecl) -> set:
+    """(python module announced by the stub, top-level name there) pairs where the declaration may legitimately be."""
+    top = g.path[0]
+    out = {(g.module.qname, top)}
+    for p, res in pkg.inits.items():
+        for r in res:
+            if r.module != g.module.qname:
+                continue
+            if r.form == "name" and r.name == top:
+                out.add((".".join(p), r.alias or r.name))
+            elif r.form in ("star", "modalias"):
+                out.add((".".join(p), top))
     return out
 
 
 def judge_presence(chk, pkg: pg.Pkg, ss: StubSet, pubs: dict, feature_of=lambda g: g.kind) -> list[Viol]:
     """C03: every public declaration exactly once, under its Python name, in an allowed place."""
     viols = []
+    name_counts: dict = {}
+    for g in pg.walk(pkg):
+        name_counts[g.path] = name_counts.get(g.path, 0) + 1
     for g in pg.walk(pkg):
         if g.kind == "ctor":
             continue
@@ -72,6 +92,10 @@ def judge_presence(chk, pkg: pg.Pkg, ss: StubSet, pubs: dict, feature_of=lambda 
             continue
         kind = STUB_KIND[g.kind]
         occ = occurrences(ss, kind, alias_paths(pkg, g))
+        if name_counts.get(g.path, 1) > 1:
+            # the same declaration path exists in another module of the package: tell the two apart by place and name
+            places = allowed_places(pkg, g)
+            occ = [o for o in occ if (o[1].py_module, o[2].path().split("/")[0]) in places]
         where = f"{g.kind}:{pub.via}"
         if len(occ) == 0:
             viols.append(Viol("public-declaration-missing", where, {"id": g.id, "public_via": pub.via, "reexported_by": [".".join(p) for p in pub.reexport_pkgs]}))
@@ -99,15 +123,25 @@ def judge_privacy(chk, pkg: pg.Pkg, ss: StubSet, pubs: dict, api: dict | None, t
     viols = []
     alltext = "\n".join(v for k, v in ss.tree.items() if k.endswith(".sdsstub"))
     aidx = api_index(api) if api else {}
+    name_counts: dict = {}
+    leaf_counts: dict = {}
+    for g in pg.walk(pkg):
+        name_counts[g.path] = name_counts.get(g.path, 0) + 1
+        leaf_counts[g.name] = leaf_counts.get(g.name, 0) + 1
     for g in pg.walk(pkg):
         pub = pubs[g.id]
         where = f"{g.kind}:{_why_private(pkg, g) if not pub.public else pub.via}"
         if pub.public is False and g.kind != "ctor":
             kind = STUB_KIND[g.kind]
             occ = occurrences(ss, kind, alias_paths(pkg, g))
+            unique = name_counts.get(g.path, 1) == 1 and leaf_counts.get(g.name, 1) == 1
+            if not unique:
+                # a declaration with the same path lives in another module: only an occurrence announced for this very
+                # module counts here (the JSON comparison below tells same-named declarations apart by id)
+                occ = [o for o in occ if o[1].py_module == g.module.qname]
             if occ:
                 viols.append(Viol("private-declaration-leaked", where, {"id": g.id, "files": [o[0] for o in occ]}))
-            elif text_search and _token(g.name) and re.search(r"(?<![A-Za-z0-9_])_*" + re.escape(_token(g.name)) + r"_*(?![A-Za-z0-9_])", alltext):
+            elif unique and text_search and _token(g.name) and re.search(r"(?<![A-Za-z0-9_])_*" + re.escape(_token(g.name)) + r"_*(?![A-Za-z0-9_])", alltext):
                 viols.append(Viol("private-name-in-stub-text", where, {"id": g.id, "name": g.name}))
             chk.case_ok(f"private:{where}")
         if aidx:
